@@ -10,6 +10,7 @@ import subprocess
 import sys
 
 VERIF = os.path.dirname(os.path.dirname(os.path.abspath(__file__)))
+REPO = os.environ.get('VERIF_REPO', '/repo')     # a scratch clone may be used so that several tools can run at once
 
 
 def sh(cmd, cwd=None, timeout=900):
@@ -20,9 +21,9 @@ def sh(cmd, cwd=None, timeout=900):
 
 def main():
     only = sys.argv[1:]
-    rc, out = sh('git -C /repo status --porcelain --untracked-files=no')
+    rc, out = sh('git -C %s status --porcelain --untracked-files=no' % REPO)
     if out.strip():
-        raise SystemExit('/repo has uncommitted changes')
+        raise SystemExit(REPO + ' has uncommitted changes')
     seeds = sorted(d for d in os.listdir(os.path.join(VERIF, 'seeded')) if os.path.isdir(os.path.join(VERIF, 'seeded', d)))
     bad = []
     for sd in seeds:
@@ -38,11 +39,11 @@ def main():
         prop = meta['property']
         want = meta.get('caught_by') or [prop]
         checks = [prop] if prop in want else want[:1]
-        rc, out = sh('git -C /repo apply --check %s' % patch)
+        rc, out = sh('git -C %s apply --check %s' % (REPO, patch))
         if rc:
             print('%-6s skipped: patch no longer applies to the current tree' % sd)
             continue
-        sh('git -C /repo apply %s' % patch)
+        sh('git -C %s apply %s' % (REPO, patch))
         try:
             hit = None
             codes = []
@@ -53,7 +54,7 @@ def main():
                     hit = c
                     break
         finally:
-            sh('git -C /repo checkout -- .')
+            sh('git -C %s checkout -- .' % REPO)
         if hit:
             print('%-6s caught by %s' % (sd, hit))
         else:
